@@ -53,6 +53,9 @@ type c15Res struct {
 	Col      int    `json:"col"`
 	Msg      string `json:"msg"`
 	Tree     bool   `json:"tree"`
+	PosOK    bool   `json:"pos_ok"`   // error position inside the input (in runes, as the scanner counts)
+	LineLen  int    `json:"line_len"` // length of the reported line in runes (-1: no such line)
+	NLines   int    `json:"nlines"`
 	Problems []string `json:"problems,omitempty"`
 }
 
@@ -234,6 +237,22 @@ func c15One(i int, c c15Case) c15Res {
 				return
 			}
 			r.Line, r.Col, r.Msg = pe.Pos.Line, pe.Pos.Column, pe.Message
+			var lens []int
+			cur := 0
+			for _, ru := range []rune(src) {
+				if ru == '\n' {
+					lens = append(lens, cur)
+					cur = 0
+				} else {
+					cur++
+				}
+			}
+			lens = append(lens, cur)
+			r.NLines, r.LineLen = len(lens), -1
+			if r.Line >= 1 && r.Line <= len(lens) {
+				r.LineLen = lens[r.Line-1]
+				r.PosOK = r.Col >= 1 && r.Col <= r.LineLen+1
+			}
 		}
 	}()
 	if c.Kind == "valid" || c.Kind == "mutated" {
